@@ -3,7 +3,9 @@
     python -m vf.fuzz.target --prop C13 --part fuzz-text --out <dir> --runs N --seed S [--corpus <dir>] [--dict <file>]
 
 Every input is decoded into the same JSON case the Hypothesis parts use and handed to the part's plain check function, so the
-semantic oracle sits inside the target.  A violation is written to <out>/finding-<signature>.json (first one per signature)
+semantic oracle sits inside the target.  A part whose `fuzz_decode` is the string "hypothesis" has no decoder of its own: libFuzzer's bytes
+are the choice sequence of the part's Hypothesis strategy (`fuzz_one_input`), i.e. the structured generator of the Hypothesis part is driven
+by coverage feedback from the instrumented pydsdl instead of by Hypothesis' own random source.  A violation is written to <out>/finding-<signature>.json (first one per signature)
 and the campaign goes on; nothing is reported from here - the parent re-runs every finding through the check.
 """
 from __future__ import annotations
@@ -28,6 +30,8 @@ def main() -> int:
     ap.add_argument("--dict", default="")
     ap.add_argument("--repo", required=True)
     ap.add_argument("--max-len", type=int, default=1024)
+    ap.add_argument("--case-timeout", type=float, default=60.0)
+    ap.add_argument("--sample-every", type=int, default=50)
     a = ap.parse_args()
     import atheris
 
@@ -41,10 +45,20 @@ def main() -> int:
     scratch = os.path.join(a.out, "scratch")
     os.makedirs(scratch, exist_ok=True)
     ctx = Ctx(prop=a.prop, tier="thorough", seed=a.seed, shard=0, nshards=1, repo=a.repo, scratch_root=scratch)
-    part = {p.name: p for p in mod.parts(ctx)}[a.part]
+    part = {p.name: p for p in core.all_parts(mod, ctx)}[a.part]
     decode = part.fuzz_decode
-    stats = {"execs": 0, "violations": 0, "nontrivial": 0}
+    stats = {"execs": 0, "violations": 0, "nontrivial": 0, "timeouts": 0, "samples": 0}
     seen = set()
+    import signal
+
+    class _CaseTimeout(BaseException):
+        pass
+
+    def _alarm(_s: int, _f: object) -> None:
+        raise _CaseTimeout()
+
+    # libFuzzer's own alarm is switched off below (-timeout=0 -handle_alrm=0): a slow case is abandoned and counted, as in the workers
+    signal.signal(signal.SIGALRM, _alarm)
 
     def one(data: bytes) -> None:
         stats["execs"] += 1
@@ -54,10 +68,24 @@ def main() -> int:
             return
         if case is None:
             return
+        run_case(case, data)
+
+    def run_case(case: object, data: bytes) -> None:
         try:
-            info = part.check(case, ctx)
+            signal.setitimer(signal.ITIMER_REAL, a.case_timeout)
+            try:
+                info = part.check(case, ctx)
+            finally:
+                signal.setitimer(signal.ITIMER_REAL, 0)
             if info is not None and info.nontrivial:
                 stats["nontrivial"] += 1
+                # a sample of the non-trivial cases goes back to the worker, which re-runs them for the evidence
+                if stats["nontrivial"] % a.sample_every == 1 and stats["samples"] < 60:
+                    stats["samples"] += 1
+                    with open(os.path.join(a.out, "sample-%03d.json" % stats["samples"]), "w") as f:
+                        json.dump(case, f)
+        except _CaseTimeout:
+            stats["timeouts"] += 1
         except BaseException as ex:  # pylint: disable=broad-except
             v = _to_violation(ex)
             if v is None:
@@ -67,14 +95,56 @@ def main() -> int:
             stats["violations"] += 1
             if v.signature not in seen and len(seen) < 40:
                 seen.add(v.signature)
-                name = re.sub(r"[^A-Za-z0-9_.-]+", "_", v.signature)[:80] + "-" + hashlib.sha1(data).hexdigest()[:8]
+                name = re.sub(r"[^A-Za-z0-9_.-]+", "_", v.signature)[:80] + "-" + hashlib.sha1(data or json.dumps(case, default=str).encode()).hexdigest()[:8]
                 with open(os.path.join(a.out, "finding-%s.json" % name), "w") as f:
                     json.dump({"signature": v.signature, "case": case, "expected": core.jsonable(v.expected), "observed": core.jsonable(v.observed)}, f)
-        if stats["execs"] % 500 == 0:
+        if stats["execs"] % 50 == 0 or stats["execs"] >= a.runs - 1:
             with open(os.path.join(a.out, "stats.json"), "w") as f:
                 json.dump(stats, f)
 
-    argv = [sys.argv[0], "-runs=%d" % a.runs, "-seed=%d" % (a.seed or 1), "-max_len=%d" % a.max_len, "-timeout=120", "-rss_limit_mb=4096", "-print_final_stats=0", "-verbosity=0"]
+    entry = one
+    if decode == "hypothesis":
+        from hypothesis import given, settings, HealthCheck
+        from hypothesis.internal.conjecture import providers as _providers
+
+        def _draw_integer(self, min_value=None, max_value=None, *, weights=None, shrink_towards=0):  # type: ignore
+            """Hypothesis 6.168's BytestringProvider.draw_integer compares the raw bits with [min, max] without adding min, so a range such
+            as integers(2, 3) - which the shuffle at the end of every fixed_dictionaries of four or more keys draws - never succeeds and
+            every input ends as an overrun.  Same draw sizes, offset applied."""
+            if min_value is None and max_value is None:
+                min_value, max_value = -(2**127), 2**127 - 1
+            elif min_value is None:
+                min_value = max_value - 2**64
+            elif max_value is None:
+                max_value = min_value + 2**64
+            if min_value == max_value:
+                return min_value
+            bits = (max_value - min_value).bit_length()
+            value = min_value + self._draw_bits(bits)
+            while value > max_value:
+                value = min_value + self._draw_bits(bits)
+            return value
+
+        _providers.BytestringProvider.draw_integer = _draw_integer  # type: ignore
+
+        @settings(database=None, deadline=None, suppress_health_check=list(HealthCheck))
+        @given(part.strategy)
+        def drive(case: object) -> None:
+            run_case(case, b"")
+
+        fuzz_one_input = drive.hypothesis.fuzz_one_input
+
+        def entry(data: bytes) -> None:  # type: ignore
+            stats["execs"] += 1
+            try:
+                fuzz_one_input(data)
+            except _CaseTimeout:  # raised while the strategy was still drawing
+                stats["timeouts"] += 1
+            if stats["execs"] % 50 == 0 or stats["execs"] >= a.runs - 1:
+                with open(os.path.join(a.out, "stats.json"), "w") as f:
+                    json.dump(stats, f)
+
+    argv = [sys.argv[0], "-runs=%d" % a.runs, "-seed=%d" % (a.seed or 1), "-max_len=%d" % a.max_len, "-timeout=0", "-handle_alrm=0", "-rss_limit_mb=4096", "-print_final_stats=0", "-verbosity=0"]
     if a.dict:
         argv.append("-dict=" + a.dict)
     work_corpus = os.path.join(a.out, "corpus")
@@ -82,7 +152,20 @@ def main() -> int:
     argv.append(work_corpus)
     if a.corpus and os.path.isdir(a.corpus):
         argv.append(a.corpus)
-    atheris.Setup(argv, one)
+    if decode == "hypothesis":
+        # an input shorter than the strategy needs is an overrun (no case at all), and nothing in the strategy code is instrumented, so a
+        # campaign started from libFuzzer's tiny initial inputs would never grow: seed it with buffers that are long enough
+        import random
+
+        rnd = random.Random(a.seed)
+        for i in range(48):
+            n = rnd.choice([256, 1024, 4096, a.max_len])
+            kind = i % 3
+            blob = bytes(rnd.getrandbits(8) if kind == 0 else (rnd.getrandbits(8) & rnd.getrandbits(8) if kind == 1 else rnd.choice([0, 0, 0, 1, 2, 255, rnd.getrandbits(8)])) for _ in range(n))
+            with open(os.path.join(work_corpus, "start%02d" % i), "wb") as f:
+                f.write(blob)
+        argv.insert(1, "-len_control=0")
+    atheris.Setup(argv, entry)
     try:
         atheris.Fuzz()
     finally:
